@@ -2851,8 +2851,13 @@ pub fn freeze(env: &mut FreezeEnv, expr: &LocExpr) -> NRes<LocExpr> {
                         .flat_map(|x| x.collect_identifiers(false /* declared_only */))
                         .collect::<HashSet<String>>(),
                 );
+                // parameter defaults and annotations mention free variables too
+                let params2 = params
+                    .iter()
+                    .map(|p| box_freeze_lvalue(&mut env2, p))
+                    .collect::<NRes<Vec<Box<Lvalue>>>>()?;
                 Ok(Expr::Lambda(
-                    params.clone(),
+                    Rc::new(params2),
                     Rc::new(freeze(&mut env2, body)?),
                 ))
             }
